@@ -2692,8 +2692,10 @@ func (te *TemplateEngine) renderImages(content string, images map[string]*Templa
 
 // processImagePlaceholders 处理文档中的图片占位符
 func (te *TemplateEngine) processImagePlaceholders(doc *Document, data *TemplateData) error {
-	// 遍历文档元素，查找并替换图片占位符
-	for i, element := range doc.Body.Elements {
+	// 遍历文档元素，查找并替换图片占位符。一个段落可能被替换为多个元素，
+	// 因此结果写入新的切片，而不是在遍历的同时修改正在遍历的切片。
+	newBodyElements := make([]interface{}, 0, len(doc.Body.Elements))
+	for _, element := range doc.Body.Elements {
 		switch elem := element.(type) {
 		case *Paragraph:
 			// 检查段落是否包含图片占位符
@@ -2701,19 +2703,18 @@ func (te *TemplateEngine) processImagePlaceholders(doc *Document, data *Template
 			if err != nil {
 				return err
 			}
-
-			// 如果有图片替换，更新文档元素
-			if len(newElements) > 1 || (len(newElements) == 1 && newElements[0] != elem) {
-				// 移除原段落，插入新元素（可能包含图片段落）
-				doc.Body.Elements = append(doc.Body.Elements[:i], append(newElements, doc.Body.Elements[i+1:]...)...)
-			}
+			newBodyElements = append(newBodyElements, newElements...)
 		case *Table:
 			// 处理表格中的图片占位符 (Fix for Issue #91)
 			if err := te.processImagePlaceholdersInTable(elem, data, doc); err != nil {
 				return err
 			}
+			newBodyElements = append(newBodyElements, elem)
+		default:
+			newBodyElements = append(newBodyElements, element)
 		}
 	}
+	doc.Body.Elements = newBodyElements
 	return nil
 }
 
